@@ -72,7 +72,7 @@ func (L *Loaded) isStubPkg(path string) bool {
 var noInitPkgs = map[string]bool{
 	"runtime": true, "os": true, "syscall": true, "net": true, "reflect": true, "internal/poll": true,
 	"sync": true, "sync/atomic": true, "time": true, "testing": true, "internal/godebug": true,
-	"crypto/sha256": true, "internal/cpu": true, "errors": true, "internal/reflectlite": true, "fmt": true, "io": false,
+	"crypto/sha256": true, "internal/cpu": true, "errors": true, "internal/reflectlite": true, "fmt": true, "strconv": true, "internal/strconv": true, "unicode": true,
 }
 
 func (L *Loaded) noInit(path string) bool { return noInitPkgs[path] }
@@ -1344,17 +1344,22 @@ func (i *interpreter) fmtArg(fr *frame, v value, verb byte) string {
 }
 
 func (i *interpreter) sprintf(fr *frame, format string, args []value) value {
-	var sb strings.Builder
+	var out []value
+	emit := func(s string) {
+		for k := 0; k < len(s); k++ {
+			out = append(out, s[k])
+		}
+	}
 	ai := 0
 	for k := 0; k < len(format); k++ {
 		c := format[k]
 		if c != '%' {
-			sb.WriteByte(c)
+			out = append(out, c)
 			continue
 		}
+		start := k
 		k++
-		// flags / width / precision
-		for k < len(format) && strings.IndexByte("+-# 0123456789.*", format[k]) >= 0 {
+		for k < len(format) && strings.IndexByte("+-# 0123456789.", format[k]) >= 0 {
 			k++
 		}
 		if k >= len(format) {
@@ -1362,17 +1367,61 @@ func (i *interpreter) sprintf(fr *frame, format string, args []value) value {
 		}
 		verb := format[k]
 		if verb == '%' {
-			sb.WriteByte('%')
+			out = append(out, byte('%'))
 			continue
 		}
-		if ai < len(args) {
-			sb.WriteString(i.fmtArg(fr, args[ai], verb))
-			ai++
+		if verb == '*' {
+			unsupported("fmt: * width")
+		}
+		directive := format[start : k+1]
+		if ai >= len(args) {
+			emit("%!" + string(verb) + "(MISSING)")
+			continue
+		}
+		a := args[ai]
+		ai++
+		// unwrap interface holding a plain scalar or string: use the host formatter
+		inner := a
+		if it, ok := a.(iface); ok && it.t != nil {
+			if _, isBasic := it.t.Underlying().(*types.Basic); isBasic && !i.hasMethod(it.t, "String") && !i.hasMethod(it.t, "Error") {
+				inner = it.v
+			}
+		}
+		switch x := inner.(type) {
+		case bool, int, int8, int16, int32, int64, uint, uint8, uint16, uint32, uint64, uintptr, float32, float64, string:
+			if verb == 'w' {
+				directive = directive[:len(directive)-1] + "v"
+			}
+			emit(fmt.Sprintf(directive, x))
+			continue
+		case *symStr:
+			if verb == 's' || verb == 'v' {
+				out = append(out, x.b...)
+				continue
+			}
+		case []value:
+			if verb == 's' && len(directive) == 2 {
+				// []byte printed as a string
+				allBytes := true
+				for _, e := range x {
+					if _, ok := e.(uint8); !ok && !isSym(e) {
+						allBytes = false
+					}
+				}
+				if allBytes {
+					out = append(out, x...)
+					continue
+				}
+			}
+		}
+		str := i.fmtArg(fr, a, verb)
+		if len(directive) > 2 && verb != 'x' {
+			emit(fmt.Sprintf(directive[:len(directive)-1]+"s", str))
 		} else {
-			sb.WriteString("%!" + string(verb) + "(MISSING)")
+			emit(str)
 		}
 	}
-	return sb.String()
+	return mkStr(out)
 }
 
 func (i *interpreter) sprint(fr *frame, args []value, ln bool) value {
@@ -1387,7 +1436,10 @@ func (i *interpreter) sprint(fr *frame, args []value, ln bool) value {
 }
 
 func (i *interpreter) errorf(fr *frame, format string, args []value) value {
-	msg := i.sprintf(fr, format, args).(string)
+	msg, ok := i.sprintf(fr, format, args).(string)
+	if !ok {
+		msg = "<error message with symbolic parts>"
+	}
 	// find %w operands
 	var wrapped []iface
 	ai := 0
